@@ -202,7 +202,19 @@ func (s *Sim) PublicKeyOf(id uint64) ssh.PublicKey {
 
 // NewSim starts the scripted agent with the given identities, applies the
 // construction-time faults and builds the shim with shimagent.New.
+// CompLess is a real ordering of public keys (by encoding), for shims built with Option.PubKeyComp.
+func CompLess(x, y ssh.PublicKey) bool { return bytes.Compare(x.Marshal(), y.Marshal()) < 0 }
+
+// CompGreater is the reverse ordering.
+func CompGreater(x, y ssh.PublicKey) bool { return bytes.Compare(x.Marshal(), y.Marshal()) > 0 }
+
+// NewSim builds a shim with the default comparator.
 func NewSim(pool *Pool, noup bool, initial []uint64, ctorFaults map[int]Fault, certs []*CertEnt) (*Sim, error) {
+	return NewSimComp(pool, noup, initial, ctorFaults, certs, nil)
+}
+
+// NewSimComp: comp = Option.PubKeyComp (nil = the default).
+func NewSimComp(pool *Pool, noup bool, initial []uint64, ctorFaults map[int]Fault, certs []*CertEnt, comp func(ssh.PublicKey, ssh.PublicKey) bool) (*Sim, error) {
 	s := &Sim{Pool: pool, Agent: &SAgent{}, NoUp: noup, Data: map[uint64][]byte{}, Script: map[int]Fault{}, Certs: certs}
 	for _, id := range initial {
 		if err := s.directAdd(id); err != nil {
@@ -220,7 +232,9 @@ func NewSim(pool *Pool, noup bool, initial []uint64, ctorFaults map[int]Fault, c
 	}
 	var ag shimagent.ShimAgent
 	var nerr error
-	if p, msg := core.Guard(func() { ag, nerr = shimagent.New(shimagent.Option{Address: s.Proxy.Sock, NoUpstream: noup}) }); p {
+	if p, msg := core.Guard(func() {
+		ag, nerr = shimagent.New(shimagent.Option{Address: s.Proxy.Sock, NoUpstream: noup, PubKeyComp: comp})
+	}); p {
 		s.Bad = append(s.Bad, "panic in shimagent.New: "+firstLines(msg, 12))
 		return s, nil
 	}
